@@ -541,6 +541,10 @@ def _case_key(x):
 
 def _small(x):
     y = {k: v for k, v in x.items() if k not in ("rp", "job", "mazes", "per")}
+    if x["t"] == "ds":
+        y["strs"] = [q[:160] + " ..." for q in x["strs"][:2]]
+        y["out"] = [q[:14] + ["..."] for q in x["out"][:2]]
+        y["mazes"] = [dict(kind=m["kind"], R=m["R"], C=m["C"], start=m["start"], end=m["end"]) for m in x["mazes"]]
     for k in ("tokL", "tokM"):
         if k in y and len(y[k]) > 60:
             y[k] = y[k][:30] + ["..."] + y[k][-25:]
@@ -659,7 +663,7 @@ def main(chk: lib.Check) -> int:
         canaries, bases = _canaries()
         what = "raw token streams (legacy + modular equivalent), four re-parses, dataset outputs judged against TokLegacy: round trip, Equivalent, DatasetOK; Layer M: InEmit / spec Parse"
         res = _judge(chk, recs, canaries, bases, label="tok", what=what)
-        chk.notes["oracle_ms_per_record"] = round(1000 * res.wall * min(lib.NCPU, 16) / max(1, len(recs)), 2)
+        chk.notes["oracle_shard_ms_per_record_upper_bound"] = round(1000 * res.wall * min(lib.NCPU, 16) / max(1, len(recs)), 2)
         for x in recs:
             chk.count(_case_key(x), _nontrivial(x))
         by = {}
